@@ -58,6 +58,14 @@ CLAIMED = {
    text="(verdict) ValidateHOTP/ValidateTOTP with symbolic digits/hash bytes, window per case or any refused value, undecodable secret as an outcome, code length d-1/d/d+1: every path returns (true,nil) or (false,non-nil) - OCRA's pair is asserted in C06. (disclosure) Generate/Validate HOTP/TOTP/OCRA through the real base32 decoder with a symbolic key: on every path returning an error, the error value (sentinel identity, or format string + argument terms of fmt.Errorf, or an offset-carrying base32 error) is independent of the key variables and of every digest variable - syntactic check, then a 2-safety solver query; natively the replay checks that the error text contains neither the secret text nor the code generation returns. (badsecret) for arbitrary undecodable ASCII text the error carries no byte of the text.",
    note="Bounds: digits {6,11} quick / {0,1,6,8,9,10,11} thorough in disclosure; undecodable texts of 3,5 bytes quick, up to 9 thorough. The position reported by base32.CorruptInputError depends on which character is invalid, not on key material of a well-formed secret; it is allowed.",
    design="DESIGN.md section 2/C13"),
+ "C09": dict(
+   text="ValidateHOTP/ValidateTOTP/ValidateOCRA (with validate, validateRFC4226/6287 and crypto/subtle.ConstantTimeCompare from their SSA; real derivation for window 0 and the derivation's contract for windows 2 and 10) are executed with the submitted code as symbolic bytes of the right length while the executor records the observation trace: every branch decision on a symbolic condition and every variable-time comparison primitive (Go string ==, !=, <, map lookups keyed by strings, string(a)==string(b) as used by bytes.Equal) with its operands. Decided: (a) no recorded variable-time primitive has one operand depending on the code variables and the other on secret-derived values (HMAC output, the code function, key bytes); (b) 2-safety: for every pair of rejecting paths with different branch traces the solver proves that no two runs sharing secret, parameters, counter/time and digests but differing in the code take those two paths.",
+   note="NATIVE BUILD ONLY at this point (the js/wasm entry points ValidateOTPWasm / wasm validate* and the REST handlers are listed under C20/C18). Leakage model: control flow and operands of variable-time comparisons; not caches, micro-architecture or the allocator. The property is structural (no timing can be observed natively), so a violation's replay is the deterministic re-analysis of the recorded harness instance (replay.json: analysis_only). Bounds: digits {6,10} quick / {1,6,8,9,10} thorough, windows {0,2,10}, OCRA subsets {Q},{all} quick.",
+   design="DESIGN.md section 2/C09"),
+ "C15": dict(
+   text="(registry, exhaustive over the executed initialiser: 45 names) each advertised name is read by an independent position-based reader of the RFC 6287 naming scheme and compared field by field with the registry entry, SuiteConfigFromRaws, NewRawSuite(name).Config()/String()/Validate(), IsKnownSuite and the duplicate-free list whose length equals the registry size. (parser) strings are assembled from token schemata with symbolic characters (hash digits, code-digit text, challenge letter and two digits, optional PSHA digits, optional S + 0..3 arbitrary bytes, optional T + 1..2 characters + unit byte, optional C): parseRawSuite/parseCryptoFunction/parseDataInputTokens/parseTimeGranularity and strconv.Atoi run from their SSA; the solver proves that every component outside the scheme makes NewRawSuite fail and that every accepted string yields exactly the configuration its components denote (time step n*{1,60,3600}) and reports itself as its name. (malformed) wrong version character, version with a trailing character, fourth part, unknown token, missing parts, empty token are rejected for every value of the free byte.",
+   note="Bounds: numbers of 1..2 characters (time, digits), 1..3 (hash, password hash); symbolic characters are ASCII and not ':' / '-' (a separator inside a token is another shape); 64 shapes quick, 432 thorough. Spec decisions: the advertised unit-less T1 means 1 second; S carries either no length or three digits. QA/QH formats of unregistered strings are rejected by the parser (allowed: rejected rather than approximated).",
+   design="DESIGN.md section 2/C15"),
 }
 
 NA_REASON_PENDING = "not yet built in this session: no solver-based check registered (see DESIGN.md for the planned encoding)"
